@@ -12,6 +12,7 @@ F = 'src/mpc/faand.rs'
 K = 'src/ot_core/kos.rs'
 S = 'crates/polytune-server-core/src/state.rs'
 B = 'src/utils/file_or_mem_buf.rs'
+A = 'crates/polytune-http-server/src/api.rs'
 
 M = [
  # id, file, old, new, checks, what
@@ -48,6 +49,11 @@ M = [
  ("m-c18-input-len", P, "    if *expected_inputs != inputs.len() {", "    if *expected_inputs > inputs.len() {", ["C18"], "too many input bits accepted"),
  ("m-c08-unwrap-opt", P, "                    let Some((other_share, mac)) =\n                        other_shares.get(inst.out.0 as usize).copied().flatten()\n                    else {\n                        return Err(MpcError::InvalidInputMacForInst(w).into());\n                    };", "                    let (other_share, mac) = other_shares[inst.out.0 as usize].unwrap();", ["C08"], "unwrap on a received option"),
  ("m-c12-pipelined-toss", F, "    let commitments = broadcast(channel, i, n, \"RNG comm\", &comm).await?;\n\n    // Step 3) Send and receive decommitments concurrently for multi-party cointossing.\n    let bufs_vec = unverified_broadcast(channel, i, n, \"RNG ver\", &buf).await?;", "    // pipelined: send both messages first, then collect both answers\n    for p in (0..n).filter(|p| *p != i) {\n        send_to(channel, p, \"RNG comm\", &comm).await?;\n    }\n    for p in (0..n).filter(|p| *p != i) {\n        send_to(channel, p, \"RNG ver\", &buf).await?;\n    }\n    let mut commitments = vec![vec![]; n];\n    let mut bufs_vec = vec![vec![]; n];\n    for p in (0..n).filter(|p| *p != i) {\n        commitments[p] = recv_vec_from(channel, p, \"RNG comm\", 1).await?;\n    }\n    for p in (0..n).filter(|p| *p != i) {\n        bufs_vec[p] = recv_vec_from(channel, p, \"RNG ver\", 32).await?;\n    }", ["C12", "C04"], "multi-party coin toss sends commitment and opening back to back before receiving (deadlock on 1-slot links; reveal before commitments)"),
+ ("m-http-own-semaphore", A, "PolicyState::new(self.client_builder.clone(), Arc::clone(&self.concurrency));", "PolicyState::new(self.client_builder.clone(), Arc::new(Semaphore::new(1)));", ["C17"], "http server: every state machine gets a semaphore of its own (leader concurrency limit not shared)"),
+ ("m-http-run-creates", A, "    let state_handles = state.state_handles.read().await;\n    let handle = state_handles\n        .get(&run_request.computation_id)\n        .ok_or(ApiError::UnknownComputationId(run_request.computation_id))?;\n    handle.run(run_request).await.map_err(ApiError::from)", "    let handle = state.get_or_insert_handle(run_request.computation_id).await;\n    handle.run(run_request).await.map_err(ApiError::from)", ["C14", "C13"], "http server: a run request for an unknown computation creates a state machine"),
+ ("m-http-msg-from", A, "        .mpc_msg(MpcMsg {\n            from,", "        .mpc_msg(MpcMsg {\n            from: from.min(1),", ["C13", "C17"], "http server: sender index of an MPC message clamped to 1 (n = 3: party 2's messages attributed to party 1)"),
+ ("m-http-cancel-first", A, "        for (computation_id, handle) in handles.iter() {", "        for (computation_id, handle) in handles.iter().take(1) {", ["C17", "C15"], "http server: graceful shutdown cancels only one computation"),
+ ("m-http-msg-status", 'crates/polytune-http-server/src/policy_client.rs', "        if status_code.is_success() {\n            Ok(())", "        if status_code.is_success() || status_code.is_client_error() {\n            Ok(())", ["C16", "C17", "C13"], "http client: 4xx answers (rejected validate / run / consts) treated as success"),
  ("m-c07-open-d1", F, "        di_bi[r] = if bi[r] { d1[r] } else { d0[r] };", "        di_bi[r] = if !bi[r] { d1[r] } else { d0[r] };", ["C07", "C01"], "aShare opens the wrong one of d0 / d1 (honest runs then fail)"),
 ]
 
@@ -95,7 +101,7 @@ def main():
         finally:
             run("git checkout -- .", cwd=WT)
             json.dump(results, open(resp, 'w'), indent=1)
-    und = [k for k, v in results.items() if v.get("status") == "ran" and not v["detected"]]
+    und = [k for k, v in results.items() if isinstance(v, dict) and v.get("status") == "ran" and not v["detected"]]
     print("undetected:", und)
 
 
